@@ -75,6 +75,11 @@ CHECKS = {
    technique="explicit-state BFS over call/clock histories of the real Python FailSafe driven through the real requests-hook closure (time patched, stub third-party modules) against a routing/propagation envelope; full product enumeration for TrafficFilter.is_allowed",
    text="For thresholds 1-3 x cool-downs 1-2 s the fail-safe is built through FailSafeConfig from the two environment variables exactly as the package does and driven through RequestsHook's _request closure; every history up to depth 8 (10 thorough) of calls with scripted outcomes (success, gateway connection error, x-lunar-error header, application exception on the gateway / direct path) and clock steps is explored with state merging. Checked: the gateway is not tried while the breaker must be open, calls are not bypassed without cause, gateway-side failures are swallowed and retried directly, other exceptions propagate unchanged, a gateway success clears the count. TrafficFilter: 9x9 allow/block lists x 34 destinations (names resolving to private / loopback / 172.16-31 edges, IPv6 literals, unresolvable and malformed names) x 3 header variants: is_allowed never raises and never returns True for excluded, private, loopback or unresolvable destinations.",
    note="yarl / multidict / requests are stubs (not installed in the image); DNS from a fixed table; both readings of 'tries the gateway again' after a cool-down are accepted"),
+
+ "C06": dict(level="exploration", engine="schedx", design="§3 C06",
+   technique="stateless schedule exploration (preemption- and early-timer-bounded DFS, execution cap reported) of arrivals through a real engine's Queue processor with its background goroutines, virtual time, invariant + final oracles",
+   text="Scenarios (two arrivals on a size-1 queue, a low- then a high-priority arrival, shutdown with a waiter; thorough adds three same-priority arrivals and three arrivals on a size-2 queue) run through a real streams.Stream whose flow contains the Queue processor (process loop every 100 ms, TTL watcher, removal goroutines) and a 1-per-second quota. All schedules with <=1 preemption and <=1 early time step (2/1 thorough) up to an execution cap: every request gets exactly one verdict no later than TTL + 4 ticks, waiters never exceed queue_size at any quiescent point, admissions fit the quota windows, a waiter with a better priority (or same priority and already waiting before the other arrived) is never overtaken, a rejection before TTL only when the queue was full, shutdown releases all waiters; a crash of the worker is a violation.",
+   note="execution cap per scenario (evidence reports exhaustive:false and the cap when hit); scheduling decisions at sync operations of processors/queue, the in-memory shared queue and the quota; admission order observed through the availability of waiters' verdicts"),
 }
 NA_REASON = "check not built yet in this round (work in progress; planned per DESIGN.md §3)"
 def main():
